@@ -13,6 +13,7 @@ package vsched
 
 import (
 	"fmt"
+	"os"
 	"runtime"
 	"runtime/debug"
 	"strings"
@@ -133,6 +134,17 @@ var S *Sched
 
 var epochCounter uint64
 
+// VERIF_UNLOCK_POINTS=1 turns lock releases into scheduling points in every
+// scenario (experiment switch; harnesses normally opt in per scenario).
+var forceUnlockPoints = os.Getenv("VERIF_UNLOCK_POINTS") != ""
+
+// ForceUnlockPoints makes lock releases scheduling points in every execution
+// from now on (the thorough tier and replays of its schedules use it).
+func ForceUnlockPoints(on bool) { forceUnlockPoints = on }
+
+// UnlockPointsForced reports the current setting.
+func UnlockPointsForced() bool { return forceUnlockPoints }
+
 // Active reports whether code runs under the controlled scheduler.
 func Active() bool { s := S; return s != nil && !s.aborting }
 
@@ -150,6 +162,9 @@ func Epoch() uint64 {
 func Run(cfg Config, main func()) *Result {
 	if cfg.MaxSteps == 0 {
 		cfg.MaxSteps = 200000
+	}
+	if forceUnlockPoints {
+		cfg.UnlockPoints = true
 	}
 	if cfg.StartTime.IsZero() {
 		cfg.StartTime = time.Unix(1_700_000_000, 0)
